@@ -172,9 +172,38 @@ macro_rules! eq_checks {
     }};
 }
 
+/// the port instructions declare what they touch: values kept live in registers across a read / write stay what they were
+fn register_pressure(rep: &mut Report, r: &mut Rng) {
+    use crate::util::{pressure_expected, under_register_pressure};
+    macro_rules! case {
+        ($name:expr, $body:expr) => {{
+            rep.eval();
+            let seed = r.next() | 1;
+            let ((sum, _), _evs) = trapemu::trapped(|| under_register_pressure(seed, || $body));
+            if sum != pressure_expected(seed) {
+                rep.violation(&format!("{}|changes-a-register-it-does-not-declare", $name), J::obj(vec![("profile", J::s(crate::util::profile_name())), ("expected", J::hex(pressure_expected(seed))), ("got", J::hex(sum))]));
+            }
+            rep.class(&format!("register-pressure|{}", $name));
+        }};
+    }
+    let port = r.next() as u16;
+    let v = r.next();
+    case!("Port<u8>::read", unsafe { Port::<u8>::new(port).read() });
+    case!("Port<u16>::read", unsafe { Port::<u16>::new(port).read() });
+    case!("Port<u32>::read", unsafe { Port::<u32>::new(port).read() });
+    case!("Port<u8>::write", unsafe { Port::<u8>::new(port).write(v as u8) });
+    case!("Port<u16>::write", unsafe { Port::<u16>::new(port).write(v as u16) });
+    case!("Port<u32>::write", unsafe { Port::<u32>::new(port).write(v as u32) });
+    case!("PortReadOnly<u32>::read", unsafe { PortReadOnly::<u32>::new(port).read() });
+    case!("PortWriteOnly<u16>::write", unsafe { PortWriteOnly::<u16>::new(port).write(v as u16) });
+}
+
 pub fn run(a: &Args, rep: &mut Report) {
     trapemu::install();
     let mut r = Rng::derive(a.seed, "c18", a.shard);
+    for _ in 0..16 {
+        register_pressure(rep, &mut r);
+    }
     trapemu::regs().io_state = r.next();
     // an in/out that faults while the monitor is not armed was moved out of the call it belongs to
     crate::util::fault_means_if(
